@@ -48,7 +48,15 @@ ref::RMap mapFromSpec(const Line& l) {
 		ref::RMap::Group g;
 		g.w = static_cast<uint32_t>(r.below(5));
 		g.h = static_cast<uint32_t>(r.below(5));
-		g.idx.resize(static_cast<size_t>(g.w) * g.h);
+		if (l.u("wrapgroups", 0) && r.chance(1, 3)) {
+			// dimensions whose 32-bit product (what the format's reader uses for the index count) is small although the
+			// mathematical product is not: still a byte string the reader accepts
+			static const uint32_t W[][2] = {{0x10000, 0x10000}, {0x10000, 0x10001}, {0x80000001u, 2}, {0x80000000u, 2}, {0x40000001u, 4}, {0xffffffffu, 0xffffffffu}, {0x20000, 0x8000}, {3, 0x55555556u}};
+			size_t k = r.below(8);
+			g.w = W[k][0]; g.h = W[k][1];
+			if (r.chance(1, 2)) std::swap(g.w, g.h);
+		}
+		g.idx.resize(static_cast<size_t>(static_cast<uint32_t>(g.w * g.h)));
 		for (auto& x : g.idx) x = static_cast<uint32_t>(r.next());
 		g.name = r.chance(1, 4) ? "" : randName(r, 1, 12, true);
 		m.groups.push_back(g);
@@ -100,7 +108,7 @@ struct MapStream : Family {
 		while ((h << lgw) > (thorough ? 70000u : 9000u)) h /= 2;
 		static const int64_t SG[] = {0, 0, 1, 2, -1, 256, 0x7fffffff};
 		m.set("seed", hex64(r.next())).set("lgw", lgw).set("h", h).set("nsrc", r.chance(1, 4) ? 0 : r.below(7)).set("nmap", r.chance(1, 4) ? 0 : r.below(21)).set("nter", r.chance(1, 3) ? 0 : r.below(thorough ? 20 : 5))
-		 .set("ngroups", r.chance(1, 3) ? 0 : r.below(8)).set("saved", std::to_string(SG[r.below(7)])).set("tag", r.chance(1, 2) ? 0x1011 : r.chance(1, 2) ? 0x1010 : 0x1010 + r.below(0xfffff000u)).set("trailing", r.chance(1, 2) ? 0 : r.below(30));
+		 .set("ngroups", r.chance(1, 3) ? 0 : r.below(8)).set("saved", std::to_string(SG[r.below(7)])).set("tag", r.chance(1, 2) ? 0x1011 : r.chance(1, 2) ? 0x1010 : 0x1010 + r.below(0xfffff000u)).set("trailing", r.chance(1, 2) ? 0 : r.below(30)).set("wrapgroups", r.chance(1, 6) ? 1 : 0);
 		p.world.push_back(m);
 		size_t nops = static_cast<size_t>(r.range(2, thorough ? 40 : 20));
 		for (size_t i = 0; i < nops; ++i) {
